@@ -57,6 +57,22 @@ def Guarded (g : Graph) (ok : State → Op → Bool) : State → List Op → Pro
   | _, [] => True
   | s, op :: ops => ok s op = true ∧ Guarded g ok (step g s op) ops
 
+/-- `Guarded` as a computation -/
+def guardedB (g : Graph) (ok : State → Op → Bool) : State → List Op → Bool
+  | _, [] => true
+  | s, op :: ops => ok s op && guardedB g ok (step g s op) ops
+
+theorem guarded_of_b (g : Graph) (ok : State → Op → Bool) : ∀ (ops : List Op) (s : State),
+    guardedB g ok s ops = true → Guarded g ok s ops := by
+  intro ops
+  induction ops with
+  | nil => intro _ _; trivial
+  | cons op ops ih =>
+    intro s h
+    unfold guardedB at h
+    simp only [Bool.and_eq_true] at h
+    exact ⟨h.1, ih _ h.2⟩
+
 /-- `run_inv` for guarded op lists: the step lemma may use the guard -/
 theorem run_inv_guarded (P : State → Prop) (g : Graph) (ok : State → Op → Bool) (h0 : P (init g))
     (hs : ∀ s op, P s → ok s op = true → P (step g s op)) :
@@ -620,5 +636,1736 @@ theorem good_releaseHeldActive {sp : Int} (s : State) (x : Proxy) (h : PoolGood 
       exact ready_le hy hc.1 (isReady_waiting hc.2)
     · exact hy
   · exact h
+
+
+theorem good_filter {sp : Int} {s : State} (f : Proxy → Bool) (h : PoolGood sp s) :
+    PoolGood sp { s with pool := s.pool.filter f } := by
+  intro x hx
+  exact h x (List.mem_filter.mp hx).1
+
+theorem good_remove {sp : Int} (g : Graph) (s : State) (x : Proxy) (h : PoolGood sp s) (hx : Good sp x) :
+    PoolGood sp (remove g s x) := by
+  unfold remove
+  simp only
+  have h1 := good_releaseHeldActive s x h hx
+  intro y hy
+  have hy' := (List.mem_filter.mp hy).1
+  split at hy'
+  · exact good_spawnNextParentless _ _ _ h1 y hy'
+  · exact h1 y hy'
+
+theorem good_removeIfComplete {sp : Int} (g : Graph) (s : State) (x : Proxy) (h : PoolGood sp s) (hx : Good sp x) :
+    PoolGood sp (removeIfComplete g s x) := by
+  unfold removeIfComplete
+  split
+  · exact h
+  · simp only
+    have h0 : PoolGood sp (if (s.stopTask == some (x.pt, x.name)) = true then { s with stopTaskFinished := true } else s) := by
+      split
+      · exact h
+      · exact h
+    split
+    · exact h0
+    · split
+      · exact good_remove _ _ _ h0 hx
+      · exact h0
+
+theorem good_spawnChild {sp : Int} (g : Graph) (p : Int) (n out : String) (acc : State × List (Int × String))
+    (c : Child) (h : PoolGood sp acc.1) : PoolGood sp (spawnChild g p n out acc c).1 := by
+  obtain ⟨st, sui⟩ := acc
+  unfold spawnChild
+  simp only
+  have h0 : PoolGood sp (if (c.isAbs && !st.absDone.contains ⟨p, n, out⟩) = true then
+      { st with absDone := st.absDone ++ [⟨p, n, out⟩] } else st) := by
+    split
+    · exact h
+    · exact h
+  generalize (if (c.isAbs && !st.absDone.contains ⟨p, n, out⟩) = true then
+      { st with absDone := st.absDone ++ [⟨p, n, out⟩] } else st) = st0 at h0 ⊢
+  have hfold : ∀ (ks : List (Int × String)) (a : State × List (Int × String)), PoolGood sp a.1 →
+      PoolGood sp (ks.foldl (fun (a : State × List (Int × String)) k =>
+        match a.1.get? k.1 k.2 with
+        | none => a
+        | some z =>
+          (a.1.put (z.satisfyMe ⟨p, n, out⟩),
+            if ((z.satisfyMe ⟨p, n, out⟩).suicideNow && !a.2.contains k) = true then a.2 ++ [k] else a.2)) a).1 := by
+    intro ks; induction ks with
+    | nil => intro a ha; exact ha
+    | cons k ks ih =>
+      intro a ha
+      simp only [List.foldl_cons]
+      apply ih
+      split
+      · exact ha
+      · rename_i z hz
+        exact good_put ha ((good_get? ha hz).upd (upd_satisfyMe _ _))
+  cases hget : st0.get? c.pt c.name with
+  | some y =>
+    simp only [Option.isSome_some, if_true]
+    exact hfold _ _ h0
+  | none =>
+    simp only [Option.isSome_none]
+    have h1 := pool_spawnTask g st0 c.name c.pt
+    have hf : ∀ s' y, spawnTask g st0 c.name c.pt = (s', some y) → Fresh y := fun s' y e => spawnTask_fresh e
+    generalize spawnTask g st0 c.name c.pt = R at h1 hf ⊢
+    obtain ⟨st1, child⟩ := R
+    simp only at h1 ⊢
+    cases child with
+    | none => simp only; exact good_of_pool_eq h1 h0
+    | some y =>
+      simp only [Bool.false_eq_true, if_false]
+      apply hfold
+      exact good_add (good_of_pool_eq h1 h0) ((good_of_fresh (hf st1 y rfl)).upd (upd_satisfyMe _ _))
+
+theorem good_spawnOnOutput {sp : Int} (g : Graph) (s : State) (p : Int) (n out : String) (h : PoolGood sp s) :
+    PoolGood sp (spawnOnOutput g s p n out) := by
+  unfold spawnOnOutput
+  split
+  · exact h
+  · simp only
+    have h1 : ∀ (cs : List Child) (acc : State × List (Int × String)), PoolGood sp acc.1 →
+        PoolGood sp (cs.foldl (spawnChild g p n out) acc).1 := by
+      intro cs; induction cs with
+      | nil => intro acc ha; exact ha
+      | cons c cs ih => intro acc ha; exact ih _ (good_spawnChild g p n out acc c ha)
+    have h2 : ∀ (ks : List (Int × String)) (st : State), PoolGood sp st →
+        PoolGood sp (ks.foldl (fun (st : State) k => match st.get? k.1 k.2 with
+          | some z => remove g st z
+          | none => st) st) := by
+      intro ks; induction ks with
+      | nil => intro st hst; exact hst
+      | cons k ks ih =>
+        intro st hst
+        simp only [List.foldl_cons]
+        apply ih
+        split
+        · rename_i z hz
+          exact good_remove _ _ _ hst (good_get? hst hz)
+        · exact hst
+    generalize hR : (List.foldl (spawnChild g p n out) (s, []) _) = R
+    have hRn : PoolGood sp R.1 := by rw [← hR]; exact h1 _ _ h
+    have h3 := h2 R.2 R.1 hRn
+    split
+    · rename_i x' hx'
+      exact good_removeIfComplete _ _ _ h3 (good_get? h3 hx')
+    · exact h3
+
+theorem good_store {sp : Int} {s : State} {x : Proxy} {tr : Bool} (h : PoolGood sp s)
+    (hx : tr = false → Good sp x) : PoolGood sp (store s x tr) := by
+  unfold store
+  split
+  · exact h
+  · rename_i htr
+    exact good_put h (hx (by simpa using htr))
+
+theorem good_spawnChildren {sp : Int} (g : Graph) (s : State) (p : Int) (n out : String) (tr : Bool)
+    (h : PoolGood sp s) : PoolGood sp (spawnChildren g s p n out tr) := by
+  unfold spawnChildren; split
+  · exact h
+  · exact good_spawnOnOutput _ _ _ _ _ h
+
+theorem lookup_good {sp : Int} {s : State} {p : Int} {n : String} {x : Proxy} {tr : Bool} (h : PoolGood sp s)
+    (hl : lookup s p n = some (x, tr)) (htr : tr = false) : Good sp x := by
+  unfold lookup at hl
+  split at hl
+  · rename_i y hy
+    simp only [Option.some.injEq, Prod.mk.injEq] at hl
+    obtain ⟨rfl, _⟩ := hl
+    exact good_get? h hy
+  · simp only [Option.map_eq_some_iff, Prod.mk.injEq] at hl
+    obtain ⟨_, _, _, h2⟩ := hl
+    rw [htr] at h2
+    exact absurd h2 (by decide)
+
+
+/-- closes `Upd x y` for the proxy updates of `processMessage` -/
+macro "upd_tac" : tactic => `(tactic| (
+  unfold Upd
+  simp only [Proxy.reset, setComplete]
+  (repeat' split) <;> simp_all))
+
+theorem upd_first (g : Graph) (x : Proxy) (msg : String) :
+    Upd x (if (msg == "submit-failed" || msg == "failed") = true then (x, some false) else setComplete g x msg).1 := by
+  upd_tac
+theorem upd_running (x : Proxy) : Upd x { (x.reset (status := some .running)) with subTry := 0 } := by upd_tac
+theorem upd_succeeded (x : Proxy) : Upd x (x.reset (status := some .succeeded)) := by upd_tac
+theorem upd_retry_exec (x : Proxy) (n : Nat) (h : (x.timers && decide (x.execTry < n)) = true) :
+    Upd x { (x.reset (status := some .waiting)) with execTry := x.execTry + 1, retryWait := true } := by upd_tac
+theorem upd_retry_sub (x : Proxy) (n : Nat) (h : (x.timers && decide (x.subTry < n)) = true) :
+    Upd x { (x.reset (status := some .waiting)) with subTry := x.subTry + 1, retryWait := true } := by upd_tac
+theorem upd_failed (g : Graph) (x : Proxy) :
+    Upd x (if (x.status != .failed) = true then setComplete g (x.reset (status := some .failed)) "failed"
+      else (x.reset (status := some .failed), none)).1 := by upd_tac
+theorem upd_subfailed (g : Graph) (x : Proxy) :
+    Upd x (if (x.status != .submitFailed) = true then setComplete g (x.reset (status := some .submitFailed)) "submit-failed"
+      else (x.reset (status := some .submitFailed), none)).1 := by upd_tac
+theorem upd_final (x : Proxy) (st : Status) (h : st ≠ .waiting) : Upd x (x.reset (status := some st)) := by
+  upd_tac
+theorem upd_final_set (g : Graph) (x : Proxy) (st : Status) (m : String) (h : st ≠ .waiting) :
+    Upd x (setComplete g (x.reset (status := some st)) m).1 := by
+  upd_tac
+theorem upd_submitted (x : Proxy) : Upd x ((x.reset (status := some .submitted)).reset (queued := some false)) := by
+  upd_tac
+
+theorem good_processMessage {sp : Int} (g : Graph) : ∀ (fuel : Nat) (s : State) (p : Int) (n : String) (flag : Flag)
+    (sn : Nat) (msg : String), PoolGood sp s → PoolGood sp (processMessage g fuel s p n flag sn msg).1 := by
+  intro fuel
+  induction fuel with
+  | zero => intro s p n flag sn msg h; exact h
+  | succ fuel ih =>
+    intro s p n flag sn msg h
+    unfold processMessage
+    split
+    · exact h
+    · rename_i x tr hlk
+      split
+      · exact h
+      · split
+        · exact h
+        · simp only
+          have hstore : PoolGood sp (store s (if (msg == "submit-failed" || msg == "failed") = true then (x, some false)
+              else setComplete g x msg).1 tr) :=
+            good_store h (fun htr => (lookup_good h hlk htr).upd (upd_first g x msg))
+          have himp : ∀ (l : List String) (st : State), PoolGood sp st →
+              PoolGood sp (l.foldl (fun st m => (processMessage g fuel st p n .internal sn m).1) st) := by
+            intro l; induction l with
+            | nil => intro st hst; exact hst
+            | cons a l ihl => intro st hst; exact ihl _ (ih _ _ _ _ _ _ hst)
+          generalize hS : (List.foldl (fun st m => (processMessage g fuel st p n Flag.internal sn m).1) _ _) = S
+          have hSn : PoolGood sp S := by rw [← hS]; exact himp _ _ hstore
+          clear hS hstore himp
+          split
+          · exact hSn
+          · rename_i x' tr' hlk'
+            have hx' : tr' = false → Good sp x' := lookup_good hSn hlk'
+            split
+            · -- started
+              split
+              · exact hSn
+              · exact good_spawnChildren _ _ _ _ _ _ (good_store hSn (fun htr => (hx' htr).upd (upd_running _)))
+            · split
+              · -- succeeded
+                exact good_spawnChildren _ _ _ _ _ _ (good_store hSn (fun htr => (hx' htr).upd (upd_succeeded _)))
+              · split
+                · -- failed
+                  split
+                  · exact hSn
+                  · split
+                    all_goals (
+                      split
+                      · rename_i hretry
+                        exact good_store hSn (fun htr => (hx' htr).upd (upd_retry_exec _ _ hretry))
+                      · exact good_spawnChildren _ _ _ _ _ _ (good_store hSn
+                          (fun htr => (hx' htr).upd (upd_failed g _))))
+                · split
+                  · -- submit-failed
+                    split
+                    · exact hSn
+                    · split
+                      all_goals (
+                        split
+                        · rename_i hretry
+                          exact good_store hSn (fun htr => (hx' htr).upd (upd_retry_sub _ _ hretry))
+                        · exact good_spawnChildren _ _ _ _ _ _ (good_store hSn
+                            (fun htr => (hx' htr).upd (upd_subfailed g _))))
+                  · split
+                    · -- submitted
+                      split
+                      · exact hSn
+                      · split
+                        · exact good_spawnChildren _ _ _ _ _ _ (good_store hSn
+                            (fun htr => (hx' htr).upd (upd_submitted _)))
+                        · exact good_spawnChildren _ _ _ _ _ _ hSn
+                    · split
+                      all_goals (
+                        split
+                        · exact good_spawnChildren _ _ _ _ _ _ hSn
+                        · exact hSn)
+
+
+theorem ctl_processQueue (g : Graph) (s : State) : ctl (processQueue g s) = ctl s := by
+  unfold processQueue
+  simp only
+  apply foldl_inv (fun st => ctl st = ctl s)
+  · intro st grp hst
+    split
+    · exact hst
+    · have : ∀ (l : List Msg) (acc : State × Bool),
+          ctl (l.foldl (fun (acc : State × Bool) m =>
+            let (st', pl) := processMessage g 4 acc.1 grp.1.1 grp.1.2 .received m.submitNum m.text
+            (st', acc.2 || pl)) acc).1 = ctl acc.1 := by
+        intro l; induction l with
+        | nil => intro acc; rfl
+        | cons m l ihl =>
+          intro acc
+          simp only [List.foldl_cons]
+          refine (ihl _).trans ?_
+          exact ctl_processMessage g 4 _ _ _ _ _ _
+      have h2 := this grp.2 (st, false)
+      split
+      · exact h2.trans hst
+      · exact h2.trans hst
+  · rfl
+
+theorem good_processQueue {sp : Int} (g : Graph) (s : State) (h : PoolGood sp s) : PoolGood sp (processQueue g s) := by
+  unfold processQueue
+  simp only
+  apply foldl_inv (PoolGood sp)
+  · intro st grp hst
+    split
+    · exact hst
+    · have : ∀ (l : List Msg) (acc : State × Bool), PoolGood sp acc.1 →
+          PoolGood sp (l.foldl (fun (acc : State × Bool) m =>
+            let (st', pl) := processMessage g 4 acc.1 grp.1.1 grp.1.2 .received m.submitNum m.text
+            (st', acc.2 || pl)) acc).1 := by
+        intro l; induction l with
+        | nil => intro acc ha; exact ha
+        | cons m l ihl =>
+          intro acc ha
+          apply ihl
+          exact good_processMessage g 4 _ _ _ _ _ _ ha
+      have h2 := this grp.2 (st, false) hst
+      split
+      · exact h2
+      · exact h2
+  · exact h
+
+theorem ctl_sweepQueue (s : State) : ctl (sweepQueue s) = ctl s := by
+  unfold sweepQueue
+  apply foldl_inv (fun st => ctl st = ctl s)
+  · intro st x hst
+    split
+    · split
+      · exact (ctl_queueIfReady _ _).trans hst
+      · exact hst
+    · exact hst
+  · rfl
+
+theorem good_sweepQueue {sp : Int} (s : State) (h : PoolGood sp s) : PoolGood sp (sweepQueue s) := by
+  unfold sweepQueue
+  apply foldl_inv (PoolGood sp)
+  · intro st x hst
+    split
+    · rename_i y hy
+      split
+      · have hy' : Good sp { y with retryWait := false } :=
+          (good_get? hst hy).upd ⟨rfl, id, rfl, rfl, fun h => Or.inl h⟩
+        exact good_queueIfReady _ _ (good_put hst hy') hy'
+      · exact hst
+    · exact hst
+  · exact h
+
+/-- what `releaseAndSubmit` leaves alone -/
+theorem frame_releaseAndSubmit (s : State) :
+    (releaseAndSubmit s).stopPoint = s.stopPoint ∧ (releaseAndSubmit s).rhLimit = s.rhLimit ∧
+    (releaseAndSubmit s).stop = s.stop ∧ (releaseAndSubmit s).stopMode = s.stopMode ∧
+    (releaseAndSubmit s).dbStopCp = s.dbStopCp ∧ (releaseAndSubmit s).stopTask = s.stopTask ∧
+    (releaseAndSubmit s).stopTaskFinished = s.stopTaskFinished ∧ (releaseAndSubmit s).paused = s.paused := by
+  unfold releaseAndSubmit
+  simp only
+  split
+  · exact ⟨rfl, rfl, rfl, rfl, rfl, rfl, rfl, rfl⟩
+  · simp only
+    have : ∀ (l : List Proxy) (st : State),
+        let r := l.foldl (fun (st : State) x =>
+          let y := x.reset (queued := some false)
+          let y := { (y.reset (status := some .preparing)) with submitNum := x.submitNum + 1, live := true, timers := true }
+          { (st.put y) with launched := st.launched ++ [(x.pt, x.name, x.submitNum + 1)] }) st
+        r.stopPoint = st.stopPoint ∧ r.rhLimit = st.rhLimit ∧ r.stop = st.stop ∧ r.stopMode = st.stopMode ∧
+        r.dbStopCp = st.dbStopCp ∧ r.stopTask = st.stopTask ∧ r.stopTaskFinished = st.stopTaskFinished ∧
+        r.paused = st.paused := by
+      intro l; induction l with
+      | nil => intro st; exact ⟨rfl, rfl, rfl, rfl, rfl, rfl, rfl, rfl⟩
+      | cons a l ih => intro st; simp only [List.foldl_cons]; exact ih _
+    exact this _ _
+
+/-- `releaseAndSubmit` launches only queued proxies, which lie at or before the stop point -/
+theorem good_releaseAndSubmit {sp : Int} (s : State) (h : PoolGood sp s) :
+    PoolGood sp (releaseAndSubmit s) ∧ ∀ l ∈ (releaseAndSubmit s).launched, l ∈ s.launched ∨ l.1 ≤ sp := by
+  unfold releaseAndSubmit
+  simp only
+  split
+  · exact ⟨h, fun l hl => Or.inl hl⟩
+  · simp only
+    have key : ∀ (l : List Proxy), (∀ x ∈ l, x.pt ≤ sp) → ∀ (st : State),
+        (PoolGood sp st ∧ ∀ e ∈ st.launched, e ∈ s.launched ∨ e.1 ≤ sp) →
+        let r := l.foldl (fun (st : State) x =>
+          let y := x.reset (queued := some false)
+          let y := { (y.reset (status := some .preparing)) with submitNum := x.submitNum + 1, live := true, timers := true }
+          { (st.put y) with launched := st.launched ++ [(x.pt, x.name, x.submitNum + 1)] }) st
+        (PoolGood sp r ∧ ∀ e ∈ r.launched, e ∈ s.launched ∨ e.1 ≤ sp) := by
+      intro l; induction l with
+      | nil => intro _ st hst; exact hst
+      | cons a l ih =>
+        intro hl st hst
+        simp only [List.foldl_cons]
+        apply ih (fun x hx => hl x (List.mem_cons_of_mem _ hx))
+        have ha := hl a List.mem_cons_self
+        refine ⟨?_, ?_⟩
+        · apply good_put hst.1
+          apply good_of_le
+          show ((a.reset (queued := some false)).reset (status := some .preparing)).pt ≤ sp
+          rw [reset_pt, reset_pt]; exact ha
+        · intro e he
+          simp only [List.mem_append, List.mem_singleton] at he
+          rcases he with he | rfl
+          · exact hst.2 e he
+          · exact Or.inr ha
+    apply key
+    · intro x hx
+      have hx' := List.mem_filter.mp hx
+      have hq : x.queued = true := by
+        have := hx'.2; simp only [Bool.and_eq_true] at this; exact this.1
+      by_cases hlt : sp < x.pt
+      · have := (h x hx'.1 hlt).1
+        rw [hq] at this; exact absurd this (by decide)
+      · omega
+    · exact ⟨h, fun e he => Or.inl he⟩
+
+
+/-! ### The main loop in named pieces -/
+
+/-- the `workflow_shutdown` decision of the main loop -/
+def shutdownDecision (g : Graph) (s : State) : State :=
+  if s.stopMode.isNone then
+    let (s, std) := stopTaskDone s
+    if std then { s with stopMode := some "AUTOMATIC" }
+    else
+      let (s, auto) := checkAutoShutdown g s
+      if auto then { s with stopMode := some "AUTOMATIC" } else s
+  else s
+
+/-- the rest of the main loop when the scheduler does not stop -/
+def loopBody (g : Graph) (s : State) : State :=
+  let s := sweepQueue s
+  let s := if s.stopMode.isNone && !s.paused then releaseAndSubmit s else s
+  let s := processQueue g s
+  finishLoop g s
+
+theorem mainLoop_eq (g : Graph) (s : State) :
+    mainLoop g s =
+      if s.stop.isSome then s else
+      let s3 := shutdownDecision g (releaseRunahead g (computeRunahead g s)).1
+      if canStop s3 then { s3 with stop := s3.stopMode } else loopBody g s3 := rfl
+
+
+def LimOK (sp : Int) (s : State) : Prop := ∀ l, s.rhLimit = some l → l ≤ sp
+
+/-- **the stop-point invariant**: the runahead limit does not exceed the stop point, and no pooled proxy
+beyond the stop point is queued or can become ready -/
+def SPInv (s : State) : Prop := ∀ sp, s.stopPoint = some sp → LimOK sp s ∧ PoolGood sp s
+
+/-- every job launched by the current op lies at or before the stop point -/
+def LaunchOK (s : State) : Prop := ∀ sp, s.stopPoint = some sp → ∀ l ∈ s.launched, l.1 ≤ sp
+
+/-- what `computeRunahead` leaves alone -/
+theorem frame_computeRunahead (g : Graph) (s : State) (f : Bool) :
+    let r := computeRunahead g s f
+    r.pool = s.pool ∧ r.stopPoint = s.stopPoint ∧ r.launched = s.launched ∧ r.stop = s.stop ∧
+    r.stopMode = s.stopMode ∧ r.dbStopCp = s.dbStopCp ∧ r.stopTask = s.stopTask ∧
+    r.stopTaskFinished = s.stopTaskFinished ∧ r.paused = s.paused ∧ r.restartWait = s.restartWait ∧
+    r.stalled = s.stalled := by
+  unfold computeRunahead
+  simp only
+  split
+  · exact ⟨rfl, rfl, rfl, rfl, rfl, rfl, rfl, rfl, rfl, rfl, rfl⟩
+  · split <;> exact ⟨rfl, rfl, rfl, rfl, rfl, rfl, rfl, rfl, rfl, rfl, rfl⟩
+
+theorem limOK_computeRunahead {sp : Int} (g : Graph) (s : State) (f : Bool) (hsp : s.stopPoint = some sp)
+    (h : LimOK sp s) : LimOK sp (computeRunahead g s f) := by
+  unfold computeRunahead
+  simp only
+  split
+  · exact h
+  · split
+    · exact h
+    · intro l hl
+      simp only [hsp, Option.some.injEq] at hl
+      rw [← hl]
+      exact Int.min_le_left _ _
+
+theorem frame_checkStalled (g : Graph) (s : State) :
+    ctl (checkStalled g s) = ctl s ∧ (checkStalled g s).pool = s.pool ∧
+    (checkStalled g s).stopTaskFinished = s.stopTaskFinished := by
+  unfold checkStalled
+  split
+  · exact ⟨rfl, rfl, rfl⟩
+  · split
+    · exact ⟨rfl, rfl, rfl⟩
+    · split <;> exact ⟨rfl, rfl, rfl⟩
+
+/-- what `checkAutoShutdown` leaves alone (it may clear the DB stop point) -/
+theorem frame_checkAutoShutdown (g : Graph) (s : State) :
+    let r := (checkAutoShutdown g s).1
+    r.pool = s.pool ∧ r.stopPoint = s.stopPoint ∧ r.rhLimit = s.rhLimit ∧ r.launched = s.launched ∧
+    r.stop = s.stop ∧ r.stopMode = s.stopMode ∧ r.stopTask = s.stopTask ∧
+    r.stopTaskFinished = s.stopTaskFinished ∧ r.paused = s.paused ∧ r.restartWait = s.restartWait := by
+  unfold checkAutoShutdown
+  simp only
+  obtain ⟨hc, hp, hf⟩ := frame_checkStalled g s
+  have e1 := congrArg Ctl.stopPoint hc
+  have e2 := congrArg Ctl.rhLimit hc
+  have e3 := congrArg Ctl.launched hc
+  have e4 := congrArg Ctl.stop hc
+  have e5 := congrArg Ctl.stopMode hc
+  have e6 := congrArg Ctl.stopTask hc
+  have e7 := congrArg Ctl.paused hc
+  have e8 := congrArg Ctl.restartWait hc
+  simp only [ctl] at e1 e2 e3 e4 e5 e6 e7 e8
+  split
+  · exact ⟨rfl, rfl, rfl, rfl, rfl, rfl, rfl, rfl, rfl, rfl⟩
+  · split
+    · exact ⟨hp, e1, e2, e3, e4, e5, e6, hf, e7, e8⟩
+    · split
+      · exact ⟨hp, e1, e2, e3, e4, e5, e6, hf, e7, e8⟩
+      · exact ⟨hp, e1, e2, e3, e4, e5, e6, hf, e7, e8⟩
+
+theorem frame_stopTaskDone (s : State) :
+    let r := (stopTaskDone s).1
+    r.pool = s.pool ∧ r.stopPoint = s.stopPoint ∧ r.rhLimit = s.rhLimit ∧ r.launched = s.launched ∧
+    r.stop = s.stop ∧ r.stopMode = s.stopMode ∧ r.dbStopCp = s.dbStopCp ∧ r.paused = s.paused ∧
+    r.restartWait = s.restartWait ∧ r.stalled = s.stalled := by
+  unfold stopTaskDone
+  simp only
+  split <;> exact ⟨rfl, rfl, rfl, rfl, rfl, rfl, rfl, rfl, rfl, rfl⟩
+
+/-- the shutdown decision changes neither the pool nor the stop point, runahead limit, launches -/
+theorem frame_shutdownDecision (g : Graph) (s : State) :
+    let r := shutdownDecision g s
+    r.pool = s.pool ∧ r.stopPoint = s.stopPoint ∧ r.rhLimit = s.rhLimit ∧ r.launched = s.launched ∧
+    r.stop = s.stop ∧ r.paused = s.paused := by
+  unfold shutdownDecision
+  simp only
+  split
+  · obtain ⟨a1, a2, a3, a4, a5, _, _, a8, _, _⟩ := frame_stopTaskDone s
+    split
+    · exact ⟨a1, a2, a3, a4, a5, a8⟩
+    · obtain ⟨b1, b2, b3, b4, b5, _, _, _, b9, _⟩ := frame_checkAutoShutdown g (stopTaskDone s).1
+      split
+      · exact ⟨b1.trans a1, b2.trans a2, b3.trans a3, b4.trans a4, b5.trans a5, b9.trans a8⟩
+      · exact ⟨b1.trans a1, b2.trans a2, b3.trans a3, b4.trans a4, b5.trans a5, b9.trans a8⟩
+  · exact ⟨rfl, rfl, rfl, rfl, rfl, rfl⟩
+
+/-- `finishLoop` up to (excluding) the final stall check -/
+def preCommit (s : State) : State :=
+  let hasUpd := s.schedUpd || s.pool.any (·.upd)
+  let s := if s.pool.any (·.upd) then { s with restartWait := false } else s
+  let s := if hasUpd then
+      { s with stalled := false, schedUpd := false, pool := s.pool.map fun x => { x with upd := false } }
+    else s
+  { s with db := some s.pool }
+
+theorem finishLoop_eq (g : Graph) (s : State) :
+    finishLoop g s =
+      if (!(s.schedUpd || s.pool.any (·.upd)) && (preCommit s).stopMode.isNone) = true then
+        checkStalled g (preCommit s) else preCommit s := rfl
+
+theorem frame_preCommit (s : State) :
+    let r := preCommit s
+    r.stopPoint = s.stopPoint ∧ r.rhLimit = s.rhLimit ∧ r.launched = s.launched ∧ r.stop = s.stop ∧
+    r.stopMode = s.stopMode ∧ r.dbStopCp = s.dbStopCp ∧ r.stopTask = s.stopTask ∧
+    r.stopTaskFinished = s.stopTaskFinished ∧ r.paused = s.paused := by
+  unfold preCommit
+  simp only
+  split <;> split <;> exact ⟨rfl, rfl, rfl, rfl, rfl, rfl, rfl, rfl, rfl⟩
+
+theorem good_preCommit {sp : Int} (s : State) (h : PoolGood sp s) : PoolGood sp (preCommit s) := by
+  unfold preCommit
+  simp only
+  have hmap : ∀ (t : State), PoolGood sp t → ∀ x ∈ t.pool.map (fun x => { x with upd := false }), Good sp x := by
+    intro t ht x hx
+    obtain ⟨y, hy, rfl⟩ := List.mem_map.mp hx
+    exact (ht y hy).upd ⟨rfl, id, rfl, rfl, fun h => Or.inl h⟩
+  split <;> split
+  · exact hmap { s with restartWait := false } h
+  · exact hmap s h
+  · exact h
+  · exact h
+
+/-- what `finishLoop` leaves alone -/
+theorem frame_finishLoop (g : Graph) (s : State) :
+    let r := finishLoop g s
+    r.stopPoint = s.stopPoint ∧ r.rhLimit = s.rhLimit ∧ r.launched = s.launched ∧ r.stop = s.stop ∧
+    r.stopMode = s.stopMode ∧ r.dbStopCp = s.dbStopCp ∧ r.stopTask = s.stopTask ∧
+    r.stopTaskFinished = s.stopTaskFinished ∧ r.paused = s.paused := by
+  rw [finishLoop_eq]
+  obtain ⟨a1, a2, a3, a4, a5, a6, a7, a8, a9⟩ := frame_preCommit s
+  simp only
+  split
+  · obtain ⟨hc, _, hf⟩ := frame_checkStalled g (preCommit s)
+    have e1 := congrArg Ctl.stopPoint hc
+    have e2 := congrArg Ctl.rhLimit hc
+    have e3 := congrArg Ctl.launched hc
+    have e4 := congrArg Ctl.stop hc
+    have e5 := congrArg Ctl.stopMode hc
+    have e6 := congrArg Ctl.dbStopCp hc
+    have e7 := congrArg Ctl.stopTask hc
+    have e8 := congrArg Ctl.paused hc
+    simp only [ctl] at e1 e2 e3 e4 e5 e6 e7 e8
+    exact ⟨e1.trans a1, e2.trans a2, e3.trans a3, e4.trans a4, e5.trans a5, e6.trans a6, e7.trans a7,
+      hf.trans a8, e8.trans a9⟩
+  · exact ⟨a1, a2, a3, a4, a5, a6, a7, a8, a9⟩
+
+theorem good_finishLoop {sp : Int} (g : Graph) (s : State) (h : PoolGood sp s) : PoolGood sp (finishLoop g s) := by
+  rw [finishLoop_eq]
+  split
+  · exact good_of_pool_eq (frame_checkStalled g _).2.1 (good_preCommit s h)
+  · exact good_preCommit s h
+
+/-- the body of the main loop keeps the invariant and launches nothing beyond the stop point -/
+theorem spinv_loopBody {sp : Int} (g : Graph) (s : State) (hsp : s.stopPoint = some sp) (hl : LimOK sp s)
+    (h : PoolGood sp s) (hnl : s.launched = []) :
+    (loopBody g s).stopPoint = some sp ∧ LimOK sp (loopBody g s) ∧ PoolGood sp (loopBody g s) ∧
+    ∀ l ∈ (loopBody g s).launched, l.1 ≤ sp := by
+  unfold loopBody
+  simp only
+  -- sweep
+  have c1 := ctl_sweepQueue s
+  have g1 := good_sweepQueue s h
+  have sp1 : (sweepQueue s).stopPoint = some sp := (congrArg Ctl.stopPoint c1).trans hsp
+  have rl1 : (sweepQueue s).rhLimit = s.rhLimit := congrArg Ctl.rhLimit c1
+  have la1 : (sweepQueue s).launched = [] := (congrArg Ctl.launched c1).trans hnl
+  generalize sweepQueue s = s1 at c1 g1 sp1 rl1 la1 ⊢
+  -- release and submit
+  have h2 : let s2 := if (s1.stopMode.isNone && !s1.paused) = true then releaseAndSubmit s1 else s1
+      s2.stopPoint = some sp ∧ s2.rhLimit = s.rhLimit ∧ PoolGood sp s2 ∧ ∀ l ∈ s2.launched, l.1 ≤ sp := by
+    simp only
+    split
+    · obtain ⟨f1, f2, _⟩ := frame_releaseAndSubmit s1
+      obtain ⟨g2, l2⟩ := good_releaseAndSubmit s1 g1
+      refine ⟨f1.trans sp1, f2.trans rl1, g2, ?_⟩
+      intro l hl
+      rcases l2 l hl with h' | h'
+      · rw [la1] at h'; simp at h'
+      · exact h'
+    · exact ⟨sp1, rl1, g1, by rw [la1]; simp⟩
+  generalize (if (s1.stopMode.isNone && !s1.paused) = true then releaseAndSubmit s1 else s1) = s2 at h2 ⊢
+  obtain ⟨sp2, rl2, g2, la2⟩ := h2
+  -- messages
+  have c3 := ctl_processQueue g s2
+  have g3 := good_processQueue g s2 g2
+  have sp3 : (processQueue g s2).stopPoint = some sp := (congrArg Ctl.stopPoint c3).trans sp2
+  have rl3 : (processQueue g s2).rhLimit = s.rhLimit := (congrArg Ctl.rhLimit c3).trans rl2
+  have la3 : (processQueue g s2).launched = s2.launched := congrArg Ctl.launched c3
+  generalize processQueue g s2 = s3 at c3 g3 sp3 rl3 la3 ⊢
+  obtain ⟨f1, f2, f3, _⟩ := frame_finishLoop g s3
+  refine ⟨f1.trans sp3, ?_, good_finishLoop g s3 g3, ?_⟩
+  · intro l hl'
+    rw [f2, rl3] at hl'
+    exact hl l hl'
+  · intro l hl'
+    rw [f3, la3] at hl'
+    exact la2 l hl'
+
+
+/-- what the body of the main loop leaves alone -/
+theorem frame_loopBody (g : Graph) (s : State) :
+    let r := loopBody g s
+    r.stopPoint = s.stopPoint ∧ r.rhLimit = s.rhLimit ∧ r.stop = s.stop ∧ r.stopMode = s.stopMode ∧
+    r.dbStopCp = s.dbStopCp ∧ r.stopTask = s.stopTask ∧ r.paused = s.paused := by
+  unfold loopBody
+  simp only
+  have c1 := ctl_sweepQueue s
+  generalize sweepQueue s = s1 at c1 ⊢
+  have h2 : let s2 := if (s1.stopMode.isNone && !s1.paused) = true then releaseAndSubmit s1 else s1
+      s2.stopPoint = s1.stopPoint ∧ s2.rhLimit = s1.rhLimit ∧ s2.stop = s1.stop ∧ s2.stopMode = s1.stopMode ∧
+      s2.dbStopCp = s1.dbStopCp ∧ s2.stopTask = s1.stopTask ∧ s2.paused = s1.paused := by
+    simp only
+    split
+    · obtain ⟨f1, f2, f3, f4, f5, f6, _, f8⟩ := frame_releaseAndSubmit s1
+      exact ⟨f1, f2, f3, f4, f5, f6, f8⟩
+    · exact ⟨rfl, rfl, rfl, rfl, rfl, rfl, rfl⟩
+  generalize (if (s1.stopMode.isNone && !s1.paused) = true then releaseAndSubmit s1 else s1) = s2 at h2 ⊢
+  obtain ⟨a1, a2, a3, a4, a5, a6, a7⟩ := h2
+  have c3 := ctl_processQueue g s2
+  generalize processQueue g s2 = s3 at c3 ⊢
+  obtain ⟨f1, f2, _, f4, f5, f6, f7, _, f9⟩ := frame_finishLoop g s3
+  have e1 := congrArg Ctl.stopPoint c1
+  have e2 := congrArg Ctl.rhLimit c1
+  have e3 := congrArg Ctl.stop c1
+  have e4 := congrArg Ctl.stopMode c1
+  have e5 := congrArg Ctl.dbStopCp c1
+  have e6 := congrArg Ctl.stopTask c1
+  have e7 := congrArg Ctl.paused c1
+  have d1 := congrArg Ctl.stopPoint c3
+  have d2 := congrArg Ctl.rhLimit c3
+  have d3 := congrArg Ctl.stop c3
+  have d4 := congrArg Ctl.stopMode c3
+  have d5 := congrArg Ctl.dbStopCp c3
+  have d6 := congrArg Ctl.stopTask c3
+  have d7 := congrArg Ctl.paused c3
+  simp only [ctl] at e1 e2 e3 e4 e5 e6 e7 d1 d2 d3 d4 d5 d6 d7
+  exact ⟨((f1.trans d1).trans a1).trans e1, ((f2.trans d2).trans a2).trans e2, ((f4.trans d3).trans a3).trans e3,
+    ((f5.trans d4).trans a4).trans e4, ((f6.trans d5).trans a5).trans e5, ((f7.trans d6).trans a6).trans e6,
+    ((f9.trans d7).trans a7).trans e7⟩
+
+/-- the main loop never changes the stop point -/
+theorem stopPoint_mainLoop (g : Graph) (s : State) : (mainLoop g s).stopPoint = s.stopPoint := by
+  rw [mainLoop_eq]
+  split
+  · rfl
+  · simp only
+    obtain ⟨_, sp1, _⟩ := frame_computeRunahead g s false
+    have sp2 := (congrArg Ctl.stopPoint (ctl_releaseRunahead g (computeRunahead g s))).trans sp1
+    obtain ⟨_, sp3, _⟩ := frame_shutdownDecision g (releaseRunahead g (computeRunahead g s)).1
+    split
+    · exact sp3.trans sp2
+    · exact ((frame_loopBody g _).1.trans sp3).trans sp2
+
+theorem spinv_mainLoop (g : Graph) (s : State) (h : SPInv s) (hnl : s.launched = []) :
+    SPInv (mainLoop g s) ∧ LaunchOK (mainLoop g s) := by
+  have key : ∀ sp, s.stopPoint = some sp →
+      LimOK sp (mainLoop g s) ∧ PoolGood sp (mainLoop g s) ∧ ∀ l ∈ (mainLoop g s).launched, l.1 ≤ sp := by
+    intro sp hsp
+    rw [mainLoop_eq]
+    split
+    · exact ⟨(h sp hsp).1, (h sp hsp).2, fun l hl => by rw [hnl] at hl; simp at hl⟩
+    · simp only
+      obtain ⟨p1, sp1, la1, _⟩ := frame_computeRunahead g s false
+      have c2 := ctl_releaseRunahead g (computeRunahead g s)
+      have sp2 : (releaseRunahead g (computeRunahead g s)).1.stopPoint = some sp :=
+        ((congrArg Ctl.stopPoint c2).trans sp1).trans hsp
+      have la2 : (releaseRunahead g (computeRunahead g s)).1.launched = [] :=
+        ((congrArg Ctl.launched c2).trans la1).trans hnl
+      have rl2 : (releaseRunahead g (computeRunahead g s)).1.rhLimit = (computeRunahead g s).rhLimit :=
+        congrArg Ctl.rhLimit c2
+      obtain ⟨hl, hg⟩ := h sp hsp
+      have hl1 := limOK_computeRunahead g s false hsp hl
+      have hg2 := good_releaseRunahead g _ (good_of_pool_eq p1 hg) hl1
+      have hl2 : LimOK sp (releaseRunahead g (computeRunahead g s)).1 := by
+        intro l hl'
+        rw [rl2] at hl'
+        exact hl1 l hl'
+      generalize (releaseRunahead g (computeRunahead g s)).1 = s2 at sp2 la2 hg2 hl2 ⊢
+      obtain ⟨p3, sp3, rl3, la3, _, _⟩ := frame_shutdownDecision g s2
+      have hg3 : PoolGood sp (shutdownDecision g s2) := good_of_pool_eq p3 hg2
+      have hl3 : LimOK sp (shutdownDecision g s2) := by
+        intro l hl'
+        rw [rl3] at hl'
+        exact hl2 l hl'
+      have sp3' : (shutdownDecision g s2).stopPoint = some sp := sp3.trans sp2
+      have la3' : (shutdownDecision g s2).launched = [] := la3.trans la2
+      generalize shutdownDecision g s2 = s3 at sp3' la3' hg3 hl3 ⊢
+      split
+      · refine ⟨hl3, hg3, ?_⟩
+        intro l hl'
+        have : l ∈ s3.launched := hl'
+        rw [la3'] at this; simp at this
+      · obtain ⟨_, r1, r2, r3⟩ := spinv_loopBody g s3 sp3' hl3 hg3 la3'
+        exact ⟨r1, r2, r3⟩
+  have hsp := stopPoint_mainLoop g s
+  refine ⟨?_, ?_⟩
+  · intro sp hsp'
+    obtain ⟨a, b, _⟩ := key sp (hsp.symm.trans hsp')
+    exact ⟨a, b⟩
+  · intro sp hsp'
+    exact (key sp (hsp.symm.trans hsp')).2.2
+
+
+/-! ### Commands -/
+
+theorem ctl_setHoldPoint (s : State) (p : Int) :
+    (setHoldPoint s p).stopPoint = s.stopPoint ∧ (setHoldPoint s p).rhLimit = s.rhLimit ∧
+    (setHoldPoint s p).launched = s.launched ∧ (setHoldPoint s p).dbStopCp = s.dbStopCp ∧
+    (setHoldPoint s p).stop = s.stop ∧ (setHoldPoint s p).stopMode = s.stopMode ∧
+    (setHoldPoint s p).stopTask = s.stopTask ∧ (setHoldPoint s p).paused = s.paused ∧
+    (setHoldPoint s p).restartWait = s.restartWait := by
+  unfold setHoldPoint
+  simp only
+  have : ctl (s.pool.foldl (fun st x => if x.pt > p then
+      match st.get? x.pt x.name with | some y => holdActive st y | none => st
+    else st) { s with holdPoint := some p }) = ctl { s with holdPoint := some p } := by
+    apply foldl_inv (fun st => ctl st = ctl { s with holdPoint := some p })
+    · intro st x hst
+      split
+      · split
+        · exact (ctl_holdActive _ _).trans hst
+        · exact hst
+      · exact hst
+    · rfl
+  have e1 := congrArg Ctl.stopPoint this
+  have e2 := congrArg Ctl.rhLimit this
+  have e3 := congrArg Ctl.launched this
+  have e4 := congrArg Ctl.dbStopCp this
+  have e5 := congrArg Ctl.stop this
+  have e6 := congrArg Ctl.stopMode this
+  have e7 := congrArg Ctl.stopTask this
+  have e8 := congrArg Ctl.paused this
+  have e9 := congrArg Ctl.restartWait this
+  exact ⟨e1, e2, e3, e4, e5, e6, e7, e8, e9⟩
+
+theorem good_setHoldPoint {sp : Int} (s : State) (p : Int) (h : PoolGood sp s) : PoolGood sp (setHoldPoint s p) := by
+  unfold setHoldPoint
+  simp only
+  apply foldl_inv (PoolGood sp)
+  · intro st x hst
+    split
+    · split
+      · rename_i y hy
+        exact good_holdActive _ _ hst (good_get? hst hy)
+      · exact hst
+    · exact hst
+  · exact h
+
+theorem ctl_holdTasks (s : State) (ids : List (Int × String)) : ctl (holdTasks s ids) = ctl s := by
+  unfold holdTasks
+  apply foldl_inv (fun st => ctl st = ctl s)
+  · intro st k hst
+    split
+    · exact (ctl_holdActive _ _).trans hst
+    · split
+      · exact hst
+      · exact hst
+  · rfl
+
+theorem good_holdTasks {sp : Int} (s : State) (ids : List (Int × String)) (h : PoolGood sp s) :
+    PoolGood sp (holdTasks s ids) := by
+  unfold holdTasks
+  apply foldl_inv (PoolGood sp)
+  · intro st k hst
+    split
+    · rename_i y hy
+      exact good_holdActive _ _ hst (good_get? hst hy)
+    · split
+      · exact hst
+      · exact hst
+  · exact h
+
+theorem ctl_releaseTasks (s : State) (ids : List (Int × String)) : ctl (releaseTasks s ids) = ctl s := by
+  unfold releaseTasks
+  apply foldl_inv (fun st => ctl st = ctl s)
+  · intro st k hst
+    split
+    · exact hst
+    · split
+      · exact (ctl_releaseHeldActive _ _).trans hst
+      · exact hst
+  · rfl
+
+theorem good_releaseTasks {sp : Int} (s : State) (ids : List (Int × String)) (h : PoolGood sp s) :
+    PoolGood sp (releaseTasks s ids) := by
+  unfold releaseTasks
+  apply foldl_inv (PoolGood sp)
+  · intro st k hst
+    split
+    · exact hst
+    · split
+      · rename_i y hy
+        exact good_releaseHeldActive _ _ hst (good_get? hst hy)
+      · exact hst
+  · exact h
+
+theorem ctl_releaseHoldPoint (s : State) :
+    (releaseHoldPoint s).stopPoint = s.stopPoint ∧ (releaseHoldPoint s).rhLimit = s.rhLimit ∧
+    (releaseHoldPoint s).launched = s.launched ∧ (releaseHoldPoint s).dbStopCp = s.dbStopCp ∧
+    (releaseHoldPoint s).stop = s.stop ∧ (releaseHoldPoint s).stopMode = s.stopMode ∧
+    (releaseHoldPoint s).stopTask = s.stopTask ∧ (releaseHoldPoint s).paused = s.paused := by
+  unfold releaseHoldPoint
+  simp only
+  have : ctl (s.pool.foldl (fun st x => match st.get? x.pt x.name with
+      | some y => releaseHeldActive st y | none => st) { s with holdPoint := none }) =
+      ctl { s with holdPoint := none } := by
+    apply foldl_inv (fun st => ctl st = ctl { s with holdPoint := none })
+    · intro st x hst
+      split
+      · exact (ctl_releaseHeldActive _ _).trans hst
+      · exact hst
+    · rfl
+  exact ⟨congrArg Ctl.stopPoint this, congrArg Ctl.rhLimit this, congrArg Ctl.launched this,
+    congrArg Ctl.dbStopCp this, congrArg Ctl.stop this, congrArg Ctl.stopMode this, congrArg Ctl.stopTask this,
+    congrArg Ctl.paused this⟩
+
+theorem good_releaseHoldPoint {sp : Int} (s : State) (h : PoolGood sp s) : PoolGood sp (releaseHoldPoint s) := by
+  unfold releaseHoldPoint
+  simp only
+  apply good_of_pool_eq (s := s.pool.foldl (fun st x => match st.get? x.pt x.name with
+      | some y => releaseHeldActive st y | none => st) { s with holdPoint := none }) rfl
+  apply foldl_inv (PoolGood sp)
+  · intro st x hst
+    split
+    · rename_i y hy
+      exact good_releaseHeldActive _ _ hst (good_get? hst hy)
+    · exact hst
+  · exact h
+
+/-! ### Lowering the stop point, restart: the guards -/
+
+/-- guard of a `stopPoint p` op: every pooled proxy beyond `p` is unqueued and either still
+runahead-limited, or never had a job and is not waiting, or is waiting while the runahead limit is above
+`p` (then `set_stop_point` puts it back under the runahead limit) -/
+def okStopPoint (s : State) (p : Int) : Bool :=
+  s.stopPoint == some p ||
+  s.pool.all fun x => decide (x.pt ≤ p) ||
+    (!x.queued && (x.runahead || (!x.timers && x.status != .waiting) ||
+      (x.status == .waiting && match s.rhLimit with | some l => decide (l > p) | none => false)))
+
+theorem okStopPoint_spec {s : State} {p : Int} (hne : ¬ (s.stopPoint == some p) = true) (hok : okStopPoint s p = true) :
+    ∀ x ∈ s.pool, p < x.pt → x.queued = false ∧ (x.runahead = true ∨ (x.timers = false ∧ x.status ≠ .waiting) ∨
+      (x.status = .waiting ∧ ∃ l, s.rhLimit = some l ∧ l > p)) := by
+  intro x hx hlt
+  unfold okStopPoint at hok
+  simp only [Bool.or_eq_true, List.all_eq_true] at hok
+  have h := (hok.resolve_left hne) x hx
+  have hnle : ¬ x.pt ≤ p := by omega
+  simp only [decide_eq_true_eq, hnle, false_or, Bool.and_eq_true, Bool.not_eq_eq_eq_not, Bool.not_true,
+    Bool.or_eq_true, bne_iff_ne, ne_eq, beq_iff_eq] at h
+  obtain ⟨hq, h2⟩ := h
+  refine ⟨hq, ?_⟩
+  rcases h2 with (h2 | h2) | ⟨h3, h4⟩
+  · exact Or.inl h2
+  · exact Or.inr (Or.inl h2)
+  · refine Or.inr (Or.inr ⟨h3, ?_⟩)
+    cases hrl : s.rhLimit with
+    | none => simp [hrl] at h4
+    | some l => simp only [hrl, decide_eq_true_eq] at h4; exact ⟨l, rfl, h4⟩
+
+theorem reset_runahead_true (x : Proxy) :
+    (x.reset (runahead := some true)).queued = x.queued ∧ (x.reset (runahead := some true)).runahead = true := by
+  unfold Proxy.reset
+  simp only
+  split
+  · rename_i hsame
+    simp only [Option.getD_none, Option.getD_some, beq_self_eq_true, Bool.true_and, Bool.and_true,
+      beq_iff_eq] at hsame
+    exact ⟨rfl, hsame.symm⟩
+  · exact ⟨rfl, rfl⟩
+
+theorem spinv_setStopPoint (s : State) (p : Int) (hok : okStopPoint s p = true) (h : SPInv s) :
+    SPInv (setStopPoint s p) := by
+  unfold setStopPoint
+  split
+  · exact h
+  · rename_i hne
+    have spec := okStopPoint_spec hne hok
+    simp only
+    split
+    · rename_i l hrl
+      split
+      · rename_i hgt
+        intro sp hsp
+        simp only [Option.some.injEq] at hsp
+        subst hsp
+        refine ⟨?_, ?_⟩
+        · intro l' hl'
+          simp only [Option.some.injEq] at hl'
+          omega
+        · intro y hy hlt
+          obtain ⟨x, hx, rfl⟩ := List.mem_map.mp hy
+          by_cases hc : (decide (x.pt > p) && x.status == .waiting) = true
+          · simp only [hc, if_true] at hlt ⊢
+            rw [reset_pt] at hlt
+            obtain ⟨hq, _⟩ := spec x hx hlt
+            obtain ⟨e1, e2⟩ := reset_runahead_true x
+            exact ⟨e1.trans hq, Or.inl e2⟩
+          · simp only [hc, Bool.false_eq_true, if_false] at hlt ⊢
+            obtain ⟨hq, h2⟩ := spec x hx hlt
+            refine ⟨hq, ?_⟩
+            rcases h2 with h2 | h2 | ⟨h3, _⟩
+            · exact Or.inl h2
+            · exact Or.inr h2
+            · exfalso
+              apply hc
+              simp only [Bool.and_eq_true, decide_eq_true_eq, beq_iff_eq]
+              exact ⟨hlt, h3⟩
+      · rename_i hle
+        intro sp hsp
+        simp only [Option.some.injEq] at hsp
+        subst hsp
+        refine ⟨?_, ?_⟩
+        · intro l' hl'
+          have : s.rhLimit = some l' := hl'
+          rw [hrl] at this
+          simp only [Option.some.injEq] at this
+          omega
+        · intro x hx hlt
+          obtain ⟨hq, h2⟩ := spec x hx hlt
+          refine ⟨hq, ?_⟩
+          rcases h2 with h2 | h2 | ⟨_, l', hl', hgt⟩
+          · exact Or.inl h2
+          · exact Or.inr h2
+          · rw [hrl] at hl'
+            simp only [Option.some.injEq] at hl'
+            omega
+    · rename_i hrl
+      intro sp hsp
+      simp only [Option.some.injEq] at hsp
+      subst hsp
+      refine ⟨?_, ?_⟩
+      · intro l' hl'
+        have : s.rhLimit = some l' := hl'
+        rw [hrl] at this
+        exact absurd this (by simp)
+      · intro x hx hlt
+        obtain ⟨hq, h2⟩ := spec x hx hlt
+        refine ⟨hq, ?_⟩
+        rcases h2 with h2 | h2 | ⟨_, l', hl', _⟩
+        · exact Or.inl h2
+        · exact Or.inr h2
+        · rw [hrl] at hl'
+          exact absurd hl' (by simp)
+
+
+/-- the stop point a restart restores: DB `stopcp`, else flow.cylc, else the final point -/
+def restoredStop (g : Graph) (s : State) : Int :=
+  (match s.dbStopCp with | some p => some p | none => g.cfgStop).getD g.fcp
+
+/-- guard of a `restart` op: no pooled proxy beyond the restored stop point has finished a job
+(the restart loads finished proxies as released from the runahead pool) -/
+def okRestart (g : Graph) (s : State) : Bool :=
+  s.pool.all fun x => decide (x.pt ≤ restoredStop g s) ||
+    !(x.status == .failed || x.status == .succeeded || x.status == .expired) || !x.timers
+
+theorem spinv_of_frame {s s' : State} (h : SPInv s) (h1 : s'.stopPoint = s.stopPoint) (h2 : s'.rhLimit = s.rhLimit)
+    (h3 : ∀ sp, PoolGood sp s → PoolGood sp s') : SPInv s' := by
+  intro sp hsp
+  rw [h1] at hsp
+  obtain ⟨a, b⟩ := h sp hsp
+  refine ⟨?_, h3 sp b⟩
+  intro l hl
+  rw [h2] at hl
+  exact a l hl
+
+theorem stopPoint_restart (g : Graph) (s : State) : (restart g s).stopPoint = some (restoredStop g s) := by
+  unfold restart restoredStop
+  simp only
+  split
+  · exact (ctl_setHoldPoint _ _).1
+  · rfl
+
+/-- how `restart` restores one proxy from the `task_pool` table -/
+def restoreProxy (x : Proxy) : Proxy :=
+  let (status, sn) := if x.status == .preparing then (Status.waiting, x.submitNum - 1) else (x.status, x.submitNum)
+  let keepOut := status == .running || status == .failed || status == .succeeded
+  let final := status == .failed || status == .succeeded || status == .expired
+  { x with status := status, submitNum := sn, done := if keepOut then x.done else [],
+           queued := false, runahead := !final, retryWait := false, live := false,
+           upd := (x.status == .preparing) || final }
+
+/-- the restarted state before `configure` re-applies the hold point -/
+def restartBase (g : Graph) (s : State) : State :=
+  let cfgStop : Option Int := match s.dbStopCp with | some p => some p | none => g.cfgStop
+  let pool := s.pool.map restoreProxy
+  let wait := pool.isEmpty || (match cfgStop with
+    | some sp => pool.all (fun x => x.pt > sp)
+    | none => false)
+  { pool := pool, hist := s.hist, absDone := s.absDone,
+    tasksToHold := s.tasksToHold, holdPoint := s.holdPoint, stopPoint := some (cfgStop.getD g.fcp),
+    dbStopCp := s.dbStopCp, restartWait := wait,
+    stopTask := s.stopTask, stopTaskFinished := false, schedUpd := true }
+
+theorem restart_eq (g : Graph) (s : State) :
+    restart g s = match (restartBase g s).holdPoint with
+      | some hp => setHoldPoint (restartBase g s) hp
+      | none => restartBase g s := rfl
+
+theorem restoreProxy_spec (x : Proxy) :
+    (restoreProxy x).pt = x.pt ∧ (restoreProxy x).name = x.name ∧ (restoreProxy x).queued = false ∧
+    (restoreProxy x).timers = x.timers ∧
+    ((restoreProxy x).runahead = false →
+      (x.status == .failed || x.status == .succeeded || x.status == .expired) = true ∧
+      (restoreProxy x).status ≠ .waiting) ∧
+    (x.status ≠ .preparing → (restoreProxy x).status = x.status ∧ (restoreProxy x).submitNum = x.submitNum) := by
+  unfold restoreProxy
+  refine ⟨rfl, rfl, rfl, rfl, ?_, ?_⟩
+  · cases hst : x.status <;> simp
+  · intro h
+    cases hst : x.status <;> simp_all
+
+theorem spinv_restartBase (g : Graph) (s : State) (hok : okRestart g s = true) : SPInv (restartBase g s) := by
+  intro sp hsp
+  have e1 : (restartBase g s).stopPoint = some (restoredStop g s) := rfl
+  rw [e1] at hsp
+  simp only [Option.some.injEq] at hsp
+  subst hsp
+  refine ⟨fun l hl => by exact absurd (show (none : Option Int) = some l from hl) (by simp), ?_⟩
+  intro y hy hlt
+  have hy' : y ∈ s.pool.map restoreProxy := hy
+  obtain ⟨x, hx, rfl⟩ := List.mem_map.mp hy'
+  obtain ⟨a1, _, a2, a3, a4, _⟩ := restoreProxy_spec x
+  refine ⟨a2, ?_⟩
+  cases hr : (restoreProxy x).runahead with
+  | true => exact Or.inl rfl
+  | false =>
+    obtain ⟨hf, hw⟩ := a4 hr
+    refine Or.inr ⟨?_, hw⟩
+    unfold okRestart at hok
+    have := List.all_eq_true.mp hok x hx
+    rw [a1] at hlt
+    have hnle : ¬ x.pt ≤ restoredStop g s := by omega
+    simp only [Bool.or_eq_true, decide_eq_true_eq, hnle, false_or, hf, Bool.not_true, Bool.false_eq_true,
+      Bool.not_eq_eq_eq_not] at this
+    rw [a3]; exact this
+
+theorem spinv_restart (g : Graph) (s : State) (hok : okRestart g s = true) : SPInv (restart g s) := by
+  rw [restart_eq]
+  have hb := spinv_restartBase g s hok
+  split
+  · obtain ⟨e1, e2, _⟩ := ctl_setHoldPoint (restartBase g s) ‹_›
+    exact spinv_of_frame hb e1 e2 (fun sp h => good_setHoldPoint _ _ h)
+  · exact hb
+
+theorem launched_restart (g : Graph) (s : State) : (restart g s).launched = [] := by
+  rw [restart_eq]
+  split
+  · exact (ctl_setHoldPoint _ _).2.2.1
+  · rfl
+
+
+/-! ### Start-up and the step theorem -/
+
+theorem ctl_stopPoint {a b : State} (h : ctl a = ctl b) : a.stopPoint = b.stopPoint := congrArg Ctl.stopPoint h
+theorem ctl_rhLimit {a b : State} (h : ctl a = ctl b) : a.rhLimit = b.rhLimit := congrArg Ctl.rhLimit h
+theorem ctl_launched {a b : State} (h : ctl a = ctl b) : a.launched = b.launched := congrArg Ctl.launched h
+theorem ctl_stop {a b : State} (h : ctl a = ctl b) : a.stop = b.stop := congrArg Ctl.stop h
+theorem ctl_stopMode {a b : State} (h : ctl a = ctl b) : a.stopMode = b.stopMode := congrArg Ctl.stopMode h
+theorem ctl_dbStopCp {a b : State} (h : ctl a = ctl b) : a.dbStopCp = b.dbStopCp := congrArg Ctl.dbStopCp h
+theorem ctl_stopTask {a b : State} (h : ctl a = ctl b) : a.stopTask = b.stopTask := congrArg Ctl.stopTask h
+theorem ctl_paused {a b : State} (h : ctl a = ctl b) : a.paused = b.paused := congrArg Ctl.paused h
+theorem ctl_restartWait {a b : State} (h : ctl a = ctl b) : a.restartWait = b.restartWait :=
+  congrArg Ctl.restartWait h
+
+theorem ctl_releaseRunaheadN (g : Graph) : ∀ (n : Nat) (s : State), ctl (releaseRunaheadN g n s) = ctl s := by
+  intro n; induction n with
+  | zero => intro s; rfl
+  | succ n ih =>
+    intro s
+    unfold releaseRunaheadN
+    simp only
+    split
+    · exact (ih _).trans (ctl_releaseRunahead g s)
+    · exact ctl_releaseRunahead g s
+
+theorem good_releaseRunaheadN {sp : Int} (g : Graph) : ∀ (n : Nat) (s : State), PoolGood sp s → LimOK sp s →
+    PoolGood sp (releaseRunaheadN g n s) := by
+  intro n; induction n with
+  | zero => intro s h _; exact h
+  | succ n ih =>
+    intro s h hl
+    unfold releaseRunaheadN
+    simp only
+    have h1 := good_releaseRunahead g s h hl
+    split
+    · apply ih _ h1
+      intro l hl'
+      rw [ctl_rhLimit (ctl_releaseRunahead g s)] at hl'
+      exact hl l hl'
+    · exact h1
+
+theorem spinv_init (g : Graph) : SPInv (init g) ∧ (init g).launched = [] := by
+  unfold init loadFromPoint
+  simp only
+  -- parentless tasks
+  have c1 : ctl (g.tasks.foldl (fun st t => match t.firstParentless with
+      | some p => spawnAndAdd g st t.name p
+      | none => st) ({ stopPoint := g.stopPoint } : State)) = ctl ({ stopPoint := g.stopPoint } : State) := by
+    apply foldl_inv (fun st => ctl st = ctl ({ stopPoint := g.stopPoint } : State))
+    · intro st t hst
+      split
+      · exact (ctl_spawnAndAdd _ _ _ _).trans hst
+      · exact hst
+    · rfl
+  have g1 : ∀ sp, PoolGood sp (g.tasks.foldl (fun st t => match t.firstParentless with
+      | some p => spawnAndAdd g st t.name p
+      | none => st) ({ stopPoint := g.stopPoint } : State)) := by
+    intro sp
+    apply foldl_inv (PoolGood sp)
+    · intro st t hst
+      split
+      · exact good_spawnAndAdd _ _ _ _ hst
+      · exact hst
+    · intro x hx; simp at hx
+  generalize (g.tasks.foldl (fun st t => match t.firstParentless with
+      | some p => spawnAndAdd g st t.name p
+      | none => st) ({ stopPoint := g.stopPoint } : State)) = s1 at c1 g1 ⊢
+  have sp1 : s1.stopPoint = g.stopPoint := congrArg Ctl.stopPoint c1
+  have la1 : s1.launched = [] := congrArg Ctl.launched c1
+  have rl1 : s1.rhLimit = none := congrArg Ctl.rhLimit c1
+  -- runahead
+  obtain ⟨p2, sp2, la2, _⟩ := frame_computeRunahead g s1 false
+  have c3 := ctl_releaseRunaheadN g 10 (computeRunahead g s1)
+  have fin : ∀ (s3 : State), s3.stopPoint = g.stopPoint → s3.launched = [] → SPInv s3 →
+      SPInv (s3.pool.foldl (fun st x => match st.get? x.pt x.name with
+        | some y => queueIfReady st y | none => st) s3) ∧
+      (s3.pool.foldl (fun st x => match st.get? x.pt x.name with
+        | some y => queueIfReady st y | none => st) s3).launched = [] := by
+    intro s3 e1 e2 h3
+    have cq : ctl (s3.pool.foldl (fun st x => match st.get? x.pt x.name with
+        | some y => queueIfReady st y | none => st) s3) = ctl s3 := by
+      apply foldl_inv (fun st => ctl st = ctl s3)
+      · intro st x hst
+        split
+        · exact (ctl_queueIfReady _ _).trans hst
+        · exact hst
+      · rfl
+    refine ⟨?_, (congrArg Ctl.launched cq).trans e2⟩
+    apply spinv_of_frame h3 (congrArg Ctl.stopPoint cq) (congrArg Ctl.rhLimit cq)
+    intro sp hg
+    apply foldl_inv (PoolGood sp)
+    · intro st x hst
+      split
+      · rename_i y hy
+        exact good_queueIfReady _ _ hst (good_get? hst hy)
+      · exact hst
+    · exact hg
+  apply fin
+  · exact ((congrArg Ctl.stopPoint c3).trans sp2).trans sp1
+  · exact ((congrArg Ctl.launched c3).trans la2).trans la1
+  · intro sp hsp
+    have hsp1 : s1.stopPoint = some sp := by
+      rw [← sp2, ← ctl_stopPoint c3]; exact hsp
+    have hl1 : LimOK sp s1 := fun l hl => by rw [rl1] at hl; exact absurd hl (by simp)
+    have hl2 := limOK_computeRunahead g s1 false hsp1 hl1
+    refine ⟨?_, good_releaseRunaheadN g 10 _ (good_of_pool_eq p2 (g1 sp)) hl2⟩
+    intro l hl
+    rw [ctl_rhLimit c3] at hl
+    exact hl2 l hl
+
+/-- the guard of the partial stop-point theorem: `stopPoint` and `restart` ops are restricted -/
+def okOp (g : Graph) (s : State) : Op → Bool
+  | .stopPoint p => okStopPoint s p
+  | .restart => okRestart g s
+  | _ => true
+
+theorem launched_setStopPoint (s : State) (p : Int) : (setStopPoint s p).launched = s.launched := by
+  unfold setStopPoint
+  split
+  · rfl
+  · simp only
+    split
+    · split <;> rfl
+    · rfl
+
+theorem spinv_step (g : Graph) (s : State) (op : Op) (h : SPInv s) (hok : okOp g s op = true) :
+    SPInv (step g s op) ∧ LaunchOK (step g s op) := by
+  have hc : SPInv (clearOp s) := h
+  have hl0 : (clearOp s).launched = [] := rfl
+  have nolaunch : ∀ (s' : State), s'.launched = [] → LaunchOK s' := by
+    intro s' e sp _ l hl; rw [e] at hl; simp at hl
+  unfold step
+  cases op with
+  | loop => exact spinv_mainLoop g _ hc hl0
+  | subres p n ok sn =>
+    simp only
+    have c := ctl_processMessage g 4 (clearOp s) p n .internal sn (if ok = true then "submitted" else "submit-failed")
+    exact ⟨spinv_of_frame hc (congrArg Ctl.stopPoint c) (congrArg Ctl.rhLimit c)
+      (fun sp hg => good_processMessage g 4 _ _ _ _ _ _ hg), nolaunch _ ((congrArg Ctl.launched c).trans hl0)⟩
+  | msg p n sn text => exact ⟨hc, nolaunch _ hl0⟩
+  | hold ids =>
+    have c := ctl_holdTasks (clearOp s) ids
+    exact ⟨spinv_of_frame hc (congrArg Ctl.stopPoint c) (congrArg Ctl.rhLimit c)
+      (fun sp hg => good_holdTasks _ _ hg), nolaunch _ ((congrArg Ctl.launched c).trans hl0)⟩
+  | release ids =>
+    have c := ctl_releaseTasks (clearOp s) ids
+    exact ⟨spinv_of_frame hc (congrArg Ctl.stopPoint c) (congrArg Ctl.rhLimit c)
+      (fun sp hg => good_releaseTasks _ _ hg), nolaunch _ ((congrArg Ctl.launched c).trans hl0)⟩
+  | setHoldPoint p =>
+    obtain ⟨e1, e2, e3, _⟩ := ctl_setHoldPoint (clearOp s) p
+    exact ⟨spinv_of_frame hc e1 e2 (fun sp hg => good_setHoldPoint _ _ hg), nolaunch _ (e3.trans hl0)⟩
+  | releaseHoldPoint =>
+    obtain ⟨e1, e2, e3, _⟩ := ctl_releaseHoldPoint (clearOp s)
+    exact ⟨spinv_of_frame hc e1 e2 (fun sp hg => good_releaseHoldPoint _ hg), nolaunch _ (e3.trans hl0)⟩
+  | stop mode => exact ⟨hc, nolaunch _ hl0⟩
+  | stopPoint p =>
+    exact ⟨spinv_setStopPoint (clearOp s) p hok hc, nolaunch _ ((launched_setStopPoint _ _).trans hl0)⟩
+  | stopTask p n => exact ⟨hc, nolaunch _ hl0⟩
+  | pause => exact ⟨hc, nolaunch _ hl0⟩
+  | resume => exact ⟨hc, nolaunch _ hl0⟩
+  | restart => exact ⟨spinv_restart g (clearOp s) hok, nolaunch _ (launched_restart g _)⟩
+
+
+/-! ### The stop-task flag is only written by message processing -/
+
+theorem stf_spawnTask (g : Graph) (s : State) (n : String) (p : Int) :
+    (spawnTask g s n p).1.stopTaskFinished = s.stopTaskFinished := by
+  unfold spawnTask
+  simp only
+  split
+  · rfl
+  · split
+    · rfl
+    · split
+      · rfl
+      · split
+        · rfl
+        · split
+          · split <;> rfl
+          · rfl
+
+theorem stf_add (s : State) (x : Proxy) : (s.add x).stopTaskFinished = s.stopTaskFinished := by
+  unfold State.add; split <;> rfl
+
+theorem stf_spawnAndAdd (g : Graph) (s : State) (n : String) (p : Int) :
+    (spawnAndAdd g s n p).stopTaskFinished = s.stopTaskFinished := by
+  unfold spawnAndAdd
+  split
+  · rfl
+  · have h := stf_spawnTask g s n p
+    split
+    · rename_i s' x heq
+      rw [heq] at h
+      rw [stf_add]; exact h
+    · rename_i s' heq
+      rw [heq] at h
+      exact h
+
+theorem stf_spawnNextParentless (g : Graph) (s : State) (x : Proxy) :
+    (spawnNextParentless g s x).stopTaskFinished = s.stopTaskFinished := by
+  unfold spawnNextParentless
+  split
+  · rfl
+  · split
+    · exact stf_spawnAndAdd _ _ _ _
+    · rfl
+
+theorem stf_releaseRunahead (g : Graph) (s : State) :
+    (releaseRunahead g s).1.stopTaskFinished = s.stopTaskFinished := by
+  unfold releaseRunahead
+  split
+  · rfl
+  · split
+    · rfl
+    · simp only
+      apply foldl_inv (fun (st : State) => st.stopTaskFinished = s.stopTaskFinished)
+      · intro st x hst
+        rw [stf_spawnNextParentless]
+        split
+        · exact hst
+        · exact hst
+      · rfl
+
+theorem stf_holdActive (s : State) (x : Proxy) : (holdActive s x).stopTaskFinished = s.stopTaskFinished := by
+  unfold holdActive; simp only; split <;> rfl
+
+theorem stf_releaseHeldActive (s : State) (x : Proxy) :
+    (releaseHeldActive s x).stopTaskFinished = s.stopTaskFinished := by
+  unfold releaseHeldActive; simp only; split <;> rfl
+
+theorem stf_holdTasks (s : State) (ids : List (Int × String)) :
+    (holdTasks s ids).stopTaskFinished = s.stopTaskFinished := by
+  unfold holdTasks
+  apply foldl_inv (fun (st : State) => st.stopTaskFinished = s.stopTaskFinished)
+  · intro st k hst
+    split
+    · exact (stf_holdActive _ _).trans hst
+    · split
+      · exact hst
+      · exact hst
+  · rfl
+
+theorem stf_releaseTasks (s : State) (ids : List (Int × String)) :
+    (releaseTasks s ids).stopTaskFinished = s.stopTaskFinished := by
+  unfold releaseTasks
+  apply foldl_inv (fun (st : State) => st.stopTaskFinished = s.stopTaskFinished)
+  · intro st k hst
+    split
+    · exact hst
+    · split
+      · exact (stf_releaseHeldActive _ _).trans hst
+      · exact hst
+  · rfl
+
+theorem stf_setHoldPoint (s : State) (p : Int) : (setHoldPoint s p).stopTaskFinished = s.stopTaskFinished := by
+  unfold setHoldPoint
+  simp only
+  apply foldl_inv (fun (st : State) => st.stopTaskFinished = s.stopTaskFinished)
+  · intro st x hst
+    split
+    · split
+      · exact (stf_holdActive _ _).trans hst
+      · exact hst
+    · exact hst
+  · rfl
+
+theorem stf_releaseHoldPoint (s : State) : (releaseHoldPoint s).stopTaskFinished = s.stopTaskFinished := by
+  unfold releaseHoldPoint
+  simp only
+  show (s.pool.foldl (fun (st : State) x => match st.get? x.pt x.name with
+      | some y => releaseHeldActive st y | none => st) { s with holdPoint := none }).stopTaskFinished = _
+  apply foldl_inv (fun (st : State) => st.stopTaskFinished = s.stopTaskFinished)
+  · intro st x hst
+    split
+    · exact (stf_releaseHeldActive _ _).trans hst
+    · exact hst
+  · rfl
+
+/-- what `setStopPoint` leaves alone -/
+theorem frame_setStopPoint (s : State) (p : Int) :
+    let r := setStopPoint s p
+    r.stopTaskFinished = s.stopTaskFinished ∧ r.stop = s.stop ∧ r.stopMode = s.stopMode ∧
+    r.stopTask = s.stopTask ∧ r.paused = s.paused := by
+  unfold setStopPoint
+  simp only
+  split
+  · exact ⟨rfl, rfl, rfl, rfl, rfl⟩
+  · split
+    · split <;> exact ⟨rfl, rfl, rfl, rfl, rfl⟩
+    · exact ⟨rfl, rfl, rfl, rfl, rfl⟩
+
+/-! ### The DB stop point -/
+
+/-- `set_stop_point`: either nothing changes, or the new stop point is set and recorded in the DB -/
+theorem db_setStopPoint (s : State) (p : Int) :
+    ((setStopPoint s p).stopPoint = s.stopPoint ∧ (setStopPoint s p).dbStopCp = s.dbStopCp ∧ s.stopPoint = some p) ∨
+    ((setStopPoint s p).stopPoint = some p ∧ (setStopPoint s p).dbStopCp = some p) := by
+  unfold setStopPoint
+  split
+  · rename_i h
+    exact Or.inl ⟨rfl, rfl, by simpa using h⟩
+  · simp only
+    split
+    · split <;> exact Or.inr ⟨rfl, rfl⟩
+    · exact Or.inr ⟨rfl, rfl⟩
+
+/-- the DB stop point invariant: a recorded stop point is the current stop point -/
+def DbInv (s : State) : Prop := ∀ p, s.dbStopCp = some p → s.stopPoint = some p
+
+/-- the shutdown decision keeps the DB stop point or clears it while deciding to stop automatically -/
+theorem db_shutdownDecision (g : Graph) (s : State) :
+    (shutdownDecision g s).dbStopCp = s.dbStopCp ∨
+    ((shutdownDecision g s).dbStopCp = none ∧ (shutdownDecision g s).stopMode = some "AUTOMATIC" ∧
+      s.stopMode = none) := by
+  unfold shutdownDecision
+  simp only
+  split
+  · rename_i hm
+    have hm' : s.stopMode = none := by simpa using hm
+    obtain ⟨_, _, _, _, _, _, a7, _⟩ := frame_stopTaskDone s
+    split
+    · exact Or.inl a7
+    · unfold checkAutoShutdown
+      simp only
+      split
+      · simp only [Bool.false_eq_true, if_false]; exact Or.inl a7
+      · split
+        · simp only [Bool.false_eq_true, if_false]
+          exact Or.inl ((ctl_dbStopCp (frame_checkStalled g _).1).trans a7)
+        · split
+          · simp only [Bool.false_eq_true, if_false]
+            exact Or.inl ((ctl_dbStopCp (frame_checkStalled g _).1).trans a7)
+          · simp only [if_true]
+            exact Or.inr ⟨trivial, trivial, hm'⟩
+  · exact Or.inl rfl
+
+theorem canStop_none {s : State} (h : s.stopMode = none) : canStop s = false := by
+  unfold canStop; rw [h]
+
+/-- the main loop keeps the DB stop point, or clears it when it shuts down automatically -/
+theorem db_mainLoop (g : Graph) (s : State) :
+    (mainLoop g s).dbStopCp = s.dbStopCp ∨
+    ((mainLoop g s).dbStopCp = none ∧ (mainLoop g s).stop = some "AUTOMATIC" ∧ s.stop = none ∧
+      s.stopMode = none) := by
+  rw [mainLoop_eq]
+  split
+  · exact Or.inl rfl
+  · rename_i hstop
+    have hstop' : s.stop = none := by simpa using hstop
+    simp only
+    obtain ⟨_, _, _, _, m1, d1, _⟩ := frame_computeRunahead g s false
+    have c2 := ctl_releaseRunahead g (computeRunahead g s)
+    have d2 : (releaseRunahead g (computeRunahead g s)).1.dbStopCp = s.dbStopCp := (ctl_dbStopCp c2).trans d1
+    have m2 : (releaseRunahead g (computeRunahead g s)).1.stopMode = s.stopMode := (ctl_stopMode c2).trans m1
+    generalize (releaseRunahead g (computeRunahead g s)).1 = s2 at d2 m2 ⊢
+    rcases db_shutdownDecision g s2 with h | ⟨h1, h2, h3⟩
+    · split
+      · exact Or.inl (h.trans d2)
+      · exact Or.inl (((frame_loopBody g _).2.2.2.2.1.trans h).trans d2)
+    · split
+      · exact Or.inr ⟨h1, h2, hstop', m2.symm.trans h3⟩
+      · rename_i hc
+        exfalso
+        apply hc
+        unfold canStop
+        rw [h2]
+        simp only
+        have e1 : ("AUTOMATIC" == "REQUEST(NOW-NOW)") = false := by decide
+        have e2 : ("AUTOMATIC" == "REQUEST(CLEAN)") = false := by decide
+        have e3 : ("AUTOMATIC" == "REQUEST(KILL)") = false := by decide
+        simp [e1, e2, e3]
+
+
+/-! ### Instances keep their job (status and submit number) -/
+
+/-- every pooled instance of `s` is still pooled in `s'` with the same status and submit number -/
+def Kept (s s' : State) : Prop :=
+  ∀ p n x, s.get? p n = some x → ∃ y, s'.get? p n = some y ∧ y.status = x.status ∧ y.submitNum = x.submitNum
+
+theorem Kept.refl (s : State) : Kept s s := fun _ _ x h => ⟨x, h, rfl, rfl⟩
+
+theorem Kept.trans {a b c : State} (h1 : Kept a b) (h2 : Kept b c) : Kept a c := by
+  intro p n x hx
+  obtain ⟨y, hy, e1, e2⟩ := h1 p n x hx
+  obtain ⟨z, hz, f1, f2⟩ := h2 p n y hy
+  exact ⟨z, hz, f1.trans e1, f2.trans e2⟩
+
+theorem kept_of_pool_eq {s s' : State} (h : s'.pool = s.pool) : Kept s s' := by
+  intro p n x hx
+  refine ⟨x, ?_, rfl, rfl⟩
+  unfold State.get? at hx ⊢
+  rw [h]; exact hx
+
+theorem find?_map_key (l : List Proxy) (f : Proxy → Proxy) (hf : ∀ w, (f w).pt = w.pt ∧ (f w).name = w.name)
+    (p : Int) (n : String) :
+    (l.map f).find? (fun x => x.pt == p && x.name == n) = (l.find? (fun x => x.pt == p && x.name == n)).map f := by
+  rw [List.find?_map]
+  have : ((fun x : Proxy => x.pt == p && x.name == n) ∘ f) = fun x => x.pt == p && x.name == n := by
+    funext w
+    simp only [Function.comp, (hf w).1, (hf w).2]
+  rw [this]
+
+/-- replacing the proxy of an instance by one with the same key, status and submit number -/
+theorem kept_put {s : State} {y z : Proxy} (hy : s.get? y.pt y.name = some y)
+    (h1 : z.pt = y.pt) (h2 : z.name = y.name) (h3 : z.status = y.status) (h4 : z.submitNum = y.submitNum) :
+    Kept s (s.put z) := by
+  intro p n x hx
+  have hf : ∀ w : Proxy, ((fun w => if (w.pt == z.pt && w.name == z.name) = true then z else w) w).pt = w.pt ∧
+      ((fun w => if (w.pt == z.pt && w.name == z.name) = true then z else w) w).name = w.name := by
+    intro w
+    simp only
+    split
+    · rename_i hw
+      simp only [Bool.and_eq_true, beq_iff_eq] at hw
+      exact ⟨hw.1.symm, hw.2.symm⟩
+    · exact ⟨rfl, rfl⟩
+  have hget : (s.put z).get? p n = (s.get? p n).map
+      (fun w => if (w.pt == z.pt && w.name == z.name) = true then z else w) := by
+    unfold State.put State.get?
+    exact find?_map_key s.pool _ hf p n
+  rw [hget, hx]
+  refine ⟨_, rfl, ?_⟩
+  simp only
+  split
+  · rename_i hw
+    simp only [Bool.and_eq_true, beq_iff_eq] at hw
+    obtain ⟨k1, k2⟩ := get?_key hx
+    have : s.get? y.pt y.name = some x := by
+      rw [← h1, ← h2, ← hw.1, ← hw.2, k1, k2]; exact hx
+    rw [hy] at this
+    simp only [Option.some.injEq] at this
+    subst this
+    exact ⟨h3, h4⟩
+  · exact ⟨rfl, rfl⟩
+
+theorem kept_add (s : State) (x : Proxy) : Kept s (s.add x) := by
+  unfold State.add
+  split
+  · exact Kept.refl s
+  · intro p n y hy
+    refine ⟨y, ?_, rfl, rfl⟩
+    unfold State.get? at hy ⊢
+    simp only [List.find?_append, hy, Option.some_or]
+
+theorem reset_flags (x : Proxy) (q r h : Option Bool) :
+    (x.reset (queued := q) (runahead := r) (held := h)).pt = x.pt ∧
+    (x.reset (queued := q) (runahead := r) (held := h)).name = x.name ∧
+    (x.reset (queued := q) (runahead := r) (held := h)).status = x.status ∧
+    (x.reset (queued := q) (runahead := r) (held := h)).submitNum = x.submitNum := by
+  unfold Proxy.reset
+  simp only
+  split <;> exact ⟨rfl, rfl, rfl, rfl⟩
+
+theorem get?_self {s : State} {p : Int} {n : String} {y : Proxy} (h : s.get? p n = some y) :
+    s.get? y.pt y.name = some y := by
+  obtain ⟨k1, k2⟩ := get?_key h
+  rw [k1, k2]; exact h
+
+theorem kept_spawnAndAdd (g : Graph) (s : State) (n : String) (p : Int) : Kept s (spawnAndAdd g s n p) := by
+  unfold spawnAndAdd
+  split
+  · exact Kept.refl s
+  · have hp := pool_spawnTask g s n p
+    split
+    · rename_i s' x heq
+      rw [heq] at hp
+      exact (kept_of_pool_eq hp).trans (kept_add _ _)
+    · rename_i s' heq
+      rw [heq] at hp
+      exact kept_of_pool_eq hp
+
+theorem kept_spawnNextParentless (g : Graph) (s : State) (x : Proxy) : Kept s (spawnNextParentless g s x) := by
+  unfold spawnNextParentless
+  split
+  · exact Kept.refl s
+  · split
+    · exact kept_spawnAndAdd _ _ _ _
+    · exact Kept.refl s
+
+theorem kept_releaseRunahead (g : Graph) (s : State) : Kept s (releaseRunahead g s).1 := by
+  unfold releaseRunahead
+  split
+  · exact Kept.refl s
+  · split
+    · exact Kept.refl s
+    · simp only
+      apply foldl_inv (fun st => Kept s st)
+      · intro st x hst
+        refine hst.trans (Kept.trans ?_ (kept_spawnNextParentless g _ x))
+        split
+        · rename_i y hy
+          obtain ⟨a, b, c, d⟩ := reset_flags y none (some false) none
+          exact kept_put (get?_self hy) a b c d
+        · exact Kept.refl st
+      · exact Kept.refl s
+
+theorem kept_holdActive {s : State} {p : Int} {n : String} {y : Proxy} (hy : s.get? p n = some y) :
+    Kept s (holdActive s y) := by
+  unfold holdActive
+  simp only
+  obtain ⟨a, b, c, d⟩ := reset_flags y none none (some true)
+  have := kept_put (get?_self hy) a b c d
+  split
+  · exact this
+  · exact this.trans (kept_of_pool_eq rfl)
+
+theorem kept_setHoldPoint (s : State) (p : Int) : Kept s (setHoldPoint s p) := by
+  unfold setHoldPoint
+  simp only
+  apply foldl_inv (fun st => Kept s st)
+  · intro st x hst
+    split
+    · split
+      · rename_i y hy
+        exact hst.trans (kept_holdActive hy)
+      · exact hst
+    · exact hst
+  · exact kept_of_pool_eq rfl
+
+/-- a restart keeps every instance that is not `preparing` under its status and submit number -/
+theorem kept_restart (g : Graph) (s : State) (p : Int) (n : String) (x : Proxy) (hx : s.get? p n = some x)
+    (hprep : x.status ≠ .preparing) :
+    ∃ y, (restart g s).get? p n = some y ∧ y.status = x.status ∧ y.submitNum = x.submitNum := by
+  rw [restart_eq]
+  have hb : (restartBase g s).get? p n = some (restoreProxy x) := by
+    have : (restartBase g s).get? p n = (s.get? p n).map restoreProxy := by
+      unfold State.get?
+      exact find?_map_key s.pool restoreProxy (fun w => ⟨(restoreProxy_spec w).1, (restoreProxy_spec w).2.1⟩) p n
+    rw [this, hx]; rfl
+  obtain ⟨e1, e2⟩ := (restoreProxy_spec x).2.2.2.2.2 hprep
+  split
+  · obtain ⟨y, hy, f1, f2⟩ := kept_setHoldPoint (restartBase g s) ‹_› p n _ hb
+    exact ⟨y, hy, f1.trans e1, f2.trans e2⟩
+  · exact ⟨_, hb, e1, e2⟩
+
+
+/-! ### The main loop up to the shutdown decision -/
+
+/-- the state in which the main loop takes its shutdown decision -/
+def preShutdown (g : Graph) (s : State) : State := (releaseRunahead g (computeRunahead g s)).1
+
+theorem mainLoop_eq' (g : Graph) (s : State) :
+    mainLoop g s =
+      if s.stop.isSome then s else
+      if canStop (shutdownDecision g (preShutdown g s)) then
+        { shutdownDecision g (preShutdown g s) with stop := (shutdownDecision g (preShutdown g s)).stopMode }
+      else loopBody g (shutdownDecision g (preShutdown g s)) := rfl
+
+theorem frame_preShutdown (g : Graph) (s : State) :
+    let r := preShutdown g s
+    r.stop = s.stop ∧ r.stopMode = s.stopMode ∧ r.stopPoint = s.stopPoint ∧ r.dbStopCp = s.dbStopCp ∧
+    r.stopTask = s.stopTask ∧ r.stopTaskFinished = s.stopTaskFinished ∧ r.paused = s.paused ∧
+    r.restartWait = s.restartWait ∧ r.launched = s.launched ∧ Kept s r := by
+  unfold preShutdown
+  simp only
+  obtain ⟨a0, a1, a2, a3, a4, a5, a6, a7, a8, a9, _⟩ := frame_computeRunahead g s false
+  have c := ctl_releaseRunahead g (computeRunahead g s)
+  exact ⟨(ctl_stop c).trans a3, (ctl_stopMode c).trans a4, (ctl_stopPoint c).trans a1, (ctl_dbStopCp c).trans a5,
+    (ctl_stopTask c).trans a6, (stf_releaseRunahead g _).trans a7, (ctl_paused c).trans a8,
+    (ctl_restartWait c).trans a9, (ctl_launched c).trans a2,
+    (kept_of_pool_eq a0).trans (kept_releaseRunahead g _)⟩
+
+theorem shutdownDecision_some {g : Graph} {s : State} (h : s.stopMode.isSome = true) : shutdownDecision g s = s := by
+  unfold shutdownDecision
+  cases hm : s.stopMode with
+  | none => rw [hm] at h; exact absurd h (by simp)
+  | some m => simp
+
+/-- with a stop requested or the workflow paused the body of the main loop launches nothing -/
+theorem launched_loopBody_idle (g : Graph) (s : State) (h : s.stopMode.isSome = true ∨ s.paused = true) :
+    (loopBody g s).launched = s.launched := by
+  unfold loopBody
+  simp only
+  have c1 := ctl_sweepQueue s
+  have hcond : ((sweepQueue s).stopMode.isNone && !(sweepQueue s).paused) = false := by
+    rw [ctl_stopMode c1, ctl_paused c1]
+    rcases h with h | h
+    · cases hm : s.stopMode with
+      | none => rw [hm] at h; exact absurd h (by simp)
+      | some m => simp
+    · rw [h]; simp
+  simp only [hcond, Bool.false_eq_true, if_false]
+  exact ((frame_finishLoop g _).2.2.1.trans (ctl_launched (ctl_processQueue g _))).trans (ctl_launched c1)
+
+theorem canStop_now {s : State} (h : s.stopMode = some "REQUEST(NOW)" ∨ s.stopMode = some "REQUEST(NOW-NOW)") :
+    canStop s = true := by
+  unfold canStop
+  rcases h with h | h
+  · rw [h]
+    have e1 : ("REQUEST(NOW)" == "REQUEST(NOW-NOW)") = false := by decide
+    have e2 : ("REQUEST(NOW)" == "REQUEST(CLEAN)") = false := by decide
+    have e3 : ("REQUEST(NOW)" == "REQUEST(KILL)") = false := by decide
+    simp [e1, e2, e3]
+  · rw [h]; simp
+
+theorem canStop_auto {s : State} (h : s.stopMode = some "AUTOMATIC") : canStop s = true := by
+  unfold canStop
+  rw [h]
+  have e1 : ("AUTOMATIC" == "REQUEST(NOW-NOW)") = false := by decide
+  have e2 : ("AUTOMATIC" == "REQUEST(CLEAN)") = false := by decide
+  have e3 : ("AUTOMATIC" == "REQUEST(KILL)") = false := by decide
+  simp [e1, e2, e3]
+
+theorem canStop_clean {s : State} (h : s.stopMode = some "REQUEST(CLEAN)") :
+    canStop s = true ↔ ∀ x ∈ s.pool, x.status.isActive = false := by
+  unfold canStop
+  rw [h]
+  have e1 : ("REQUEST(CLEAN)" == "REQUEST(NOW-NOW)") = false := by decide
+  simp only [e1, Bool.false_eq_true, if_false, beq_self_eq_true, Bool.true_or, Bool.true_and, Bool.not_eq_eq_eq_not,
+    Bool.not_true]
+  constructor
+  · intro hh x hx
+    cases ha : x.status.isActive with
+    | false => rfl
+    | true =>
+      have : (s.pool.any fun x => x.status.isActive) = true := List.any_eq_true.mpr ⟨x, hx, ha⟩
+      rw [this] at hh; exact absurd hh (by decide)
+  · intro hh
+    cases ha : (s.pool.any fun x => x.status.isActive) with
+    | false => rfl
+    | true =>
+      obtain ⟨x, hx, hx'⟩ := List.any_eq_true.mp ha
+      rw [hh x hx] at hx'; exact absurd hx' (by decide)
+
+
+/-! ### Runs -/
+
+/-- the last state of a run is the fold of `step` -/
+theorem mem_run_last (g : Graph) (ops : List Op) : ops.foldl (step g) (init g) ∈ run g ops := by
+  unfold run
+  have key : ∀ (ops : List Op) (acc : List State) (cur : State), cur ∈ acc →
+      ops.foldl (step g) cur ∈ (ops.foldl (fun (a : List State × State) op =>
+          let s' := step g a.2 op; (a.1 ++ [s'], s')) (acc, cur)).1 := by
+    intro ops
+    induction ops with
+    | nil => intro acc cur h; exact h
+    | cons op ops ih =>
+      intro acc cur _
+      simp only [List.foldl_cons]
+      apply ih
+      simp
+  exact key ops [init g] (init g) (by simp)
+
+/-- op lists without `stopPoint` and `restart` ops satisfy the guard trivially -/
+theorem guarded_of_plain (g : Graph) : ∀ (ops : List Op) (s : State),
+    (∀ op ∈ ops, (∀ p, op ≠ .stopPoint p) ∧ op ≠ .restart) → Guarded g (okOp g) s ops := by
+  intro ops
+  induction ops with
+  | nil => intro _ _; trivial
+  | cons op ops ih =>
+    intro s h
+    refine ⟨?_, ih _ (fun o ho => h o (List.mem_cons_of_mem _ ho))⟩
+    have := h op List.mem_cons_self
+    cases op with
+    | stopPoint p => exact absurd rfl (this.1 p)
+    | restart => exact absurd rfl this.2
+    | _ => rfl
 
 end CylcModel.Sched2
